@@ -79,13 +79,38 @@ class SymEval:
             v = None
         # dict built by item assignment at module level:  _sdsspar['x'] = ...
         if isinstance(v, dict):
+            # the table may be filled by later module-level statements: replay them in source order (simple name
+            # assignments are tracked locally because helper names such as `dname` are re-assigned between blocks)
+            started = False
+            self._const_cache[key] = v
             for st in mod.tree.body:
-                if isinstance(st, ast.Assign) and isinstance(st.targets[0], ast.Subscript) and norm(st.targets[0].value) == name \
-                        and isinstance(st.targets[0].slice, ast.Constant):
+                if isinstance(st, ast.Assign) and len(st.targets) == 1 and isinstance(st.targets[0], ast.Name):
+                    if st.targets[0].id == name:
+                        started = st.value is mod.consts[name]
+                        continue
+                    if started:
+                        try:
+                            env.vars[st.targets[0].id] = env.ev(st.value)
+                        except Unsupported:
+                            env.vars.pop(st.targets[0].id, None)
+                    continue
+                if not started:
+                    continue
+                root = None
+                if isinstance(st, ast.Assign) and isinstance(st.targets[0], ast.Subscript):
+                    root = st.targets[0]
+                    while isinstance(root, ast.Subscript):
+                        root = root.value
+                if root is not None and isinstance(root, ast.Name) and root.id == name:
                     try:
-                        self._const_cache[key] = v
-                        v[st.targets[0].slice.value] = env.ev(st.value)
-                    except Unsupported:
+                        env.assign(st.targets[0], env.ev(st.value), st)
+                    except (Unsupported, KeyError, TypeError):
+                        pass
+                elif isinstance(st, ast.For) and any(isinstance(x, ast.Assign) and isinstance(x.targets[0], ast.Subscript)
+                                                     and norm(x.targets[0].value) == name for x in ast.walk(st)):
+                    try:
+                        env.exec_for(st, sp.true)
+                    except (Unsupported, KeyError, TypeError):
                         pass
         self._const_cache[key] = v
         return v
@@ -360,8 +385,15 @@ class Env:
                 self.assign(t.value, v, st)
             elif isinstance(base, dict):
                 base[idx] = v
-            elif isinstance(base, (list,)) and isinstance(idx, int):
-                base[idx] = v
+            elif isinstance(base, tuple) and isinstance(idx, (int, sp.Integer)) and not isinstance(idx, bool) and -len(base) <= int(idx) < len(base):
+                nb = list(base)
+                nb[int(idx)] = v
+                self.assign(t.value, nb, st)
+            elif isinstance(base, (list,)) and isinstance(idx, (int, sp.Integer)):
+                base[int(idx)] = v
+            elif isinstance(base, list) and isinstance(idx, tuple) and len(idx) == 2 and all(isinstance(i, (int, sp.Integer)) for i in idx) \
+                    and isinstance(base[int(idx[0])], list):
+                base[int(idx[0])][int(idx[1])] = v
             elif _is_expr(idx) or (isinstance(idx, tuple) and all(_is_expr(i) or isinstance(i, slice) for i in idx)):
                 # element store x[i] = v: remembered per (array, index)
                 self.elem[(norm(t.value), _idx_key(idx))] = v
@@ -379,6 +411,8 @@ class Env:
             hi = self.ev(s.upper) if s.upper is not None else None
             stp = self.ev(s.step) if s.step is not None else None
             return slice(lo, hi, stp)
+        if isinstance(s, ast.Tuple) and any(isinstance(x, ast.Slice) for x in s.elts):
+            return tuple(self.ev_index(x) for x in s.elts)
         return self.ev(s)
 
     def ev(self, e, stmt_level=False):
@@ -435,7 +469,15 @@ class Env:
                     if v is not None:
                         return v
             if e.attr in ("T", "real", "flat"):
-                return self.ev(e.value)
+                base = self.ev(e.value)
+                if e.attr == "T" and _is_matrix(base):
+                    return _transpose(base)
+                return base
+            if e.attr == "shape":
+                base = self.ev(e.value)
+                if _is_matrix(base):
+                    return (sp.Integer(len(base)), sp.Integer(len(base[0])))
+                return Opaque(norm(e))
             if e.attr == "size":
                 base = self.ev(e.value)
                 if isinstance(base, (tuple, list)):
@@ -564,6 +606,9 @@ class Env:
         if isinstance(op, (ast.In, ast.NotIn)):
             if isinstance(b, (tuple, list, dict, str)) and not _is_expr(a):
                 r = a in b
+                return r if isinstance(op, ast.In) else (not r)
+            if isinstance(b, (tuple, list)) and _is_expr(a) and _as_expr(a).is_number and all(_is_expr(x) and _as_expr(x).is_number for x in b):
+                r = any(_as_expr(a) == _as_expr(x) for x in b)
                 return r if isinstance(op, ast.In) else (not r)
             raise Unsupported("symx: membership test at %s" % self.where(e))
         pyconst = lambda x: isinstance(x, (str, bool)) or x is None
@@ -707,6 +752,17 @@ class Env:
                 return Opaque(nm)
             if nm in REDUCE and c.args:
                 return sp.Function(REDUCE[nm])(_as_expr(A(0)))
+            if nm in ("zeros", "ones") and c.args and isinstance(A(0), (tuple, list)) and len(A(0)) == 2 \
+                    and all(isinstance(x, (int, sp.Integer)) for x in A(0)) and all(0 < int(x) <= 16 for x in A(0)):
+                fillv = sp.Integer(1 if nm == "ones" else 0)
+                return [[fillv for _ in range(int(A(0)[1]))] for _ in range(int(A(0)[0]))]
+            if nm in ("zeros", "ones") and c.args and isinstance(A(0), (int, sp.Integer)) and not isinstance(A(0), bool) and 0 < int(A(0)) <= 16:
+                return [sp.Integer(1 if nm == "ones" else 0) for _ in range(int(A(0)))]
+            if nm == "inv" and c.args and _is_matrix(A(0)) and len(A(0)) == len(A(0)[0]) <= 3:
+                mi = sp.Matrix([[_as_expr(x) for x in row] for row in A(0)]).inv()
+                return tuple(tuple(sp.simplify(mi[i, j]) for j in range(mi.shape[1])) for i in range(mi.shape[0]))
+            if nm in ("inner", "solve") and len(c.args) == 2 and all(_is_expr(x) for x in A()):
+                return sp.Function(nm.upper())(*[_as_expr(x) for x in A()])
             if nm in ("zeros", "ones", "empty", "zeros_like", "ones_like", "full"):
                 if nm in ("ones", "ones_like"):
                     return sp.Integer(1)
@@ -745,6 +801,12 @@ class Env:
                 if len(xs) == len(c.args):
                     return tuple(sp.Integer(i) for i in range(*xs))
                 return Opaque("range")
+            if f.id == "str" and len(c.args) == 1:
+                x = A(0)
+                if isinstance(x, (int, sp.Integer)) and not isinstance(x, bool):
+                    return str(int(x))
+                if isinstance(x, str):
+                    return x
             if f.id in ("isinstance", "hasattr", "print", "str", "repr", "type", "id", "callable"):
                 return Opaque(f.id)
             if f.id in ("tuple", "list") and c.args:
@@ -764,6 +826,21 @@ class Env:
         # methods
         if isinstance(f, ast.Attribute):
             recv_node = f.value
+            if nm in ("upper", "lower", "strip", "replace", "keys", "transpose", "copy"):
+                try:
+                    rv = self.ev(recv_node)
+                except Unsupported:
+                    rv = None
+                if isinstance(rv, str) and nm in ("upper", "lower", "strip", "replace"):
+                    sargs = A()
+                    if all(isinstance(x, str) for x in sargs):
+                        return getattr(rv, nm)(*sargs)
+                if isinstance(rv, dict) and nm == "keys":
+                    return list(rv.keys())
+                if isinstance(rv, dict) and nm == "copy":
+                    return dict(rv)
+                if _is_matrix(rv) and nm == "transpose" and not c.args:
+                    return _transpose(rv)
             if nm in IDENTITY_METHODS:
                 return self.ev(recv_node)
             if nm == "clip":
@@ -810,9 +887,46 @@ class Env:
                 return u
         # package callee
         tgt = None
+        selfcall = False
         if d:
             if self.se.repo.has(full):
                 tgt = self.se.repo.func(full)
+            elif d.startswith("self.") and d.count(".") == 1 and self.fi is not None and self.fi.cls:
+                cand = "%s.%s.%s" % (self.fi.module.name, self.fi.cls, d[5:])
+                if self.se.repo.has(cand):
+                    tgt = self.se.repo.func(cand)
+                    full = cand
+                    selfcall = True
+        if tgt is not None and selfcall:
+            if full in self.se.opaque or self.depth >= self.se.inline_depth:
+                vals = [_opaque_arg(x) for x in A() if _is_expr(x) or _is_matrix(x)]
+                kws = [sp.Function("KW_" + k.arg)(_opaque_arg(self.ev(k.value))) for k in c.keywords
+                       if k.arg and (_is_expr(self.ev(k.value)) or isinstance(self.ev(k.value), bool))]
+                return sp.Function(tgt.name)(*(vals + kws))
+            params = [p for p in tgt.params if not p.startswith("*")][1:]
+            bind = {}
+            for p, a in zip(params, A()):
+                bind[p] = a
+            for k in c.keywords:
+                if k.arg:
+                    bind[k.arg] = self.ev(k.value)
+            # object state (self.* entries) is shared with the callee and its updates are visible afterwards
+            for k2, v2 in self.vars.items():
+                if k2 == "self" or k2.startswith("self."):
+                    bind[k2] = v2
+            bind.setdefault("self", Opaque("self"))
+            env = Env(self.se, tgt, tgt.module, dict(bind), {}, depth=self.depth + 1)
+            for p in tgt.params:
+                pn = p.lstrip("*")
+                if pn not in env.vars and pn in tgt.defaults:
+                    env.vars[pn] = env.ev(tgt.defaults[pn])
+            self.se.notes.append(("selfcall", self.fi.qualname, tgt.qualname, tuple(sorted(k3 for k3 in bind if not k3.startswith("self")))))
+            rets = env.exec_body(tgt.node.body, sp.true)
+            env.finish_returns(rets)
+            for k2, v2 in env.vars.items():
+                if k2.startswith("self."):
+                    self.vars[k2] = v2
+            return env.result
         if tgt is not None:
             if full in self.se.opaque or tgt.qualname in self.se.opaque or self.depth >= self.se.inline_depth:
                 vals = [_as_expr(x) for x in A() if _is_expr(x)]
@@ -882,6 +996,22 @@ def _inplace_params(fi):
                         out.add(a.id)
     _inplace_cache[fi.qualname] = out
     return out
+
+
+def _opaque_arg(x):
+    if isinstance(x, bool):
+        return sp.Symbol("TRUE" if x else "FALSE")
+    if _is_matrix(x):
+        return sp.Function("MAT%dx%d" % (len(x), len(x[0])))(*[_as_expr(e) for row in x for e in row])
+    return _as_expr(x)
+
+
+def _is_matrix(v):
+    return isinstance(v, (tuple, list)) and len(v) > 0 and all(isinstance(r, (tuple, list)) for r in v) and len({len(r) for r in v}) == 1
+
+
+def _transpose(m):
+    return tuple(tuple(m[i][j] for i in range(len(m))) for j in range(len(m[0])))
 
 
 def _idx_key(idx):
